@@ -130,7 +130,30 @@ pub fn length(cell: Cell, forced_version: bool, min_len: usize) -> BoxedStrategy
     let lo = lo.max(min_len).min(cap);
     let clamp = move |x: usize| x.max(lo).min(cap);
     let near = cap.saturating_sub(9).max(lo);
+    // lengths whose segment ends at (or within a few bits of) the start of a data block: the place where a
+    // terminator / pad codeword / block split interaction would show (mostly reachable with a forced version)
+    let lay = layout(cell.version, cell.level);
+    let boundary = (1usize..lay.blocks.max(2), -3i64..=3).prop_map(move |(b, d)| {
+        let b = b.min(lay.blocks.saturating_sub(1));
+        let mut off = 0usize;
+        for k in 0..b {
+            off += lay.data_len(k);
+        }
+        let target_bits = (8 * off) as i64;
+        let header = (4 + cci_bits(cell.version, cell.mode)) as i64;
+        // largest len with header + payload_bits(len) <= target, then shifted by d characters
+        let per = match cell.mode { Mode::Numeric => 10.0 / 3.0, Mode::Alphanumeric => 5.5, Mode::Byte => 8.0 };
+        let mut len = (((target_bits - header).max(0)) as f64 / per) as usize;
+        while header + payload_bits(cell.mode, len + 1) as i64 <= target_bits {
+            len += 1;
+        }
+        while len > 0 && header + payload_bits(cell.mode, len) as i64 > target_bits {
+            len -= 1;
+        }
+        clamp((len as i64 + d).max(0) as usize)
+    });
     prop_oneof![
+        3 => boundary,
         3 => Just(cap),
         2 => Just(clamp(cap.saturating_sub(1))),
         1 => Just(clamp(cap.saturating_sub(2))),
@@ -206,4 +229,206 @@ pub fn version_band(v: usize) -> &'static str {
     } else {
         "v27-40"
     }
+}
+
+// ------------------------------------------------------------------------------------------------------------
+// Matrix steering: payloads crafted (through the public builder, Byte mode, full capacity) so that chosen modules
+// of the FINISHED symbol take chosen values. Data codewords are free bits of the payload; the reference placement
+// map says which payload bit lands on which module, and the forced mask is compensated. EC codewords, remainder
+// bits and the few header/terminator bits cannot be steered and are left alone. The result is an ordinary input
+// of the builder (inside every property's domain) whose matrix has long runs, isolated modules at word-size
+// boundaries, finder look-alikes at the edges, uniform rectangles — content a uniform payload reaches with
+// probability 2^-k.
+
+#[derive(Clone, Debug)]
+pub enum SteerItem {
+    /// whole row (or column) set to `base`, except the listed positions
+    Line { vertical: bool, index: usize, base: bool, exceptions: Vec<usize>, pair: bool },
+    /// run-length pattern starting at `start`: runs alternate beginning with `first`
+    Runs { vertical: bool, index: usize, start: usize, first: bool, runs: Vec<usize> },
+    /// 0000 1011101 0000 look-alike
+    Finder { vertical: bool, index: usize, start: usize },
+    /// uniform rectangle
+    Rect { r0: usize, c0: usize, h: usize, w: usize, val: bool },
+}
+
+fn edge_index(n: usize) -> BoxedStrategy<usize> {
+    prop_oneof![
+        3 => Just(n - 1),
+        1 => Just(n - 2),
+        1 => Just(n - 3),
+        1 => Just(0usize),
+        1 => Just(7usize),
+        1 => Just(8usize),
+        1 => Just(9usize),
+        1 => Just(5usize),
+        3 => 0usize..n,
+    ]
+    .boxed()
+}
+
+fn word_pos(n: usize) -> BoxedStrategy<usize> {
+    prop_oneof![
+        3 => (0usize..=(n / 8), 0usize..3).prop_map(move |(k, d)| (8 * k + d).saturating_sub(1).min(n - 1)),
+        2 => (0usize..=(n / 32), 0usize..3).prop_map(move |(k, d)| (32 * k + d).saturating_sub(1).min(n - 1)),
+        1 => (0usize..=(n / 16), 0usize..3).prop_map(move |(k, d)| (16 * k + d).saturating_sub(1).min(n - 1)),
+        1 => Just(n - 1),
+        2 => 0usize..n,
+    ]
+    .boxed()
+}
+
+fn run_len() -> BoxedStrategy<usize> {
+    prop_oneof![
+        4 => 1usize..=8,
+        1 => Just(15usize), 1 => Just(16usize), 1 => Just(17usize),
+        1 => Just(31usize), 1 => Just(32usize), 1 => Just(33usize),
+        1 => Just(63usize), 1 => Just(64usize), 1 => Just(65usize),
+        1 => 1usize..=177,
+    ]
+    .boxed()
+}
+
+pub fn steer_item(n: usize) -> BoxedStrategy<SteerItem> {
+    prop_oneof![
+        4 => (any::<bool>(), edge_index(n), any::<bool>(), vec(word_pos(n), 0..4), any::<bool>())
+            .prop_map(|(vertical, index, base, exceptions, pair)| SteerItem::Line { vertical, index, base, exceptions, pair }),
+        3 => (any::<bool>(), edge_index(n), word_pos(n), any::<bool>(), vec(run_len(), 1..8))
+            .prop_map(|(vertical, index, start, first, runs)| SteerItem::Runs { vertical, index, start, first, runs }),
+        1 => (any::<bool>(), edge_index(n), word_pos(n)).prop_map(|(vertical, index, start)| SteerItem::Finder { vertical, index, start }),
+        2 => (edge_index(n), word_pos(n), 1usize..6, 1usize..40, any::<bool>()).prop_map(|(r0, c0, h, w, val)| SteerItem::Rect { r0, c0, h, w, val }),
+    ]
+    .boxed()
+}
+
+pub fn steer_constraints(n: usize, items: &[SteerItem]) -> Vec<(usize, usize, bool)> {
+    let mut out = Vec::new();
+    let mut put = |vertical: bool, index: usize, pos: usize, val: bool| {
+        if index < n && pos < n {
+            out.push(if vertical { (pos, index, val) } else { (index, pos, val) });
+        }
+    };
+    for it in items {
+        match it {
+            SteerItem::Line { vertical, index, base, exceptions, pair } => {
+                for k in 0..(if *pair { 2 } else { 1 }) {
+                    for p in 0..n {
+                        put(*vertical, index + k, p, *base != (k == 0 && exceptions.contains(&p)));
+                    }
+                }
+            }
+            SteerItem::Runs { vertical, index, start, first, runs } => {
+                let mut p = *start;
+                let mut v = *first;
+                for &r in runs {
+                    for _ in 0..r {
+                        put(*vertical, *index, p, v);
+                        p += 1;
+                    }
+                    v = !v;
+                }
+            }
+            SteerItem::Finder { vertical, index, start } => {
+                const PAT: [bool; 15] = [false, false, false, false, true, false, true, true, true, false, true, false, false, false, false];
+                for (k, &v) in PAT.iter().enumerate() {
+                    put(*vertical, *index, start + k, v);
+                }
+            }
+            SteerItem::Rect { r0, c0, h, w, val } => {
+                for r in *r0..(*r0 + *h).min(n) {
+                    for c in *c0..(*c0 + *w).min(n) {
+                        put(false, r, c, *val);
+                    }
+                }
+            }
+        }
+    }
+    out
+}
+
+/// Craft the Byte payload (full capacity of the cell) so that the constrained modules take their values under
+/// `mask`. Returns the payload and how many constraints could be applied (landed on a payload bit).
+pub fn steer_payload(version: usize, level: Level, mask: u8, constraints: &[(usize, usize, bool)], filler: &[u8]) -> (Vec<u8>, usize) {
+    use refmodel::codec::interleave_map;
+    use refmodel::geom::{geometry, mask_cond};
+    let g = geometry(version);
+    let n = g.size;
+    let cap = capacity(version, level, Mode::Byte);
+    let header = 4 + cci_bits(version, Mode::Byte);
+    let mut payload: Vec<u8> = (0..cap).map(|i| filler.get(i).copied().unwrap_or((i * 73 + 11) as u8)).collect();
+    let mut k_of = vec![usize::MAX; n * n];
+    for (k, &(r, c)) in g.order.iter().enumerate() {
+        k_of[r * n + c] = k;
+    }
+    let imap = interleave_map(version, level);
+    let lay = layout(version, level);
+    let mut off = vec![0usize; lay.blocks + 1];
+    for b in 0..lay.blocks {
+        off[b + 1] = off[b] + lay.data_len(b);
+    }
+    let mut applied = 0;
+    for &(r, c, val) in constraints {
+        let k = k_of[r * n + c];
+        if k == usize::MAX || k / 8 >= imap.len() {
+            continue;
+        }
+        let (b, is_ec, idx) = imap[k / 8];
+        if is_ec {
+            continue;
+        }
+        let p = 8 * (off[b] + idx) + k % 8;
+        if p < header || p >= header + 8 * cap {
+            continue;
+        }
+        let pp = p - header;
+        let want = val ^ mask_cond(mask, r, c);
+        let bit = 7 - pp % 8;
+        if want {
+            payload[pp / 8] |= 1 << bit;
+        } else {
+            payload[pp / 8] &= !(1 << bit);
+        }
+        applied += 1;
+    }
+    (payload, applied)
+}
+
+/// A steered build: version/level/mask forced (mask optionally left automatic: the pattern then shows in the
+/// candidate of `mask`), Byte mode, payload crafted from 1..4 steering items.
+pub fn steered_case(vmin: usize, vmax: usize, force_mask: bool) -> BoxedStrategy<(BuildCase, &'static str)> {
+    (vmin..=vmax, 0usize..4, 0u8..8)
+        .prop_flat_map(move |(v, li, mask)| {
+            let level = Level::from_index(li);
+            let n = size(v);
+            let cap = capacity(v, level, Mode::Byte);
+            (vec(steer_item(n), 1..4), vec(any::<u8>(), cap.min(64)), any::<u8>()).prop_map(move |(items, seedbytes, stride)| {
+                let filler: Vec<u8> = (0..cap).map(|i| seedbytes[i % seedbytes.len().max(1)].wrapping_add((i / 64) as u8).wrapping_mul(stride | 1)).collect();
+                let cons = steer_constraints(n, &items);
+                let (payload, _applied) = steer_payload(v, level, mask, &cons, &filler);
+                (
+                    BuildCase::new(payload, Opts { mode: Some(Mode::Byte), level: Some(level), version: Some(v), mask: if force_mask { Some(mask) } else { None } }),
+                    "steered",
+                )
+            })
+        })
+        .boxed()
+}
+
+/// Automatic-mask builds in small and medium versions (1..=14, weighted to the small ones): exact penalty ties
+/// between candidates are frequent only there (about 0.4% of V1 builds, 0.15% at V10, practically none above V14),
+/// and a tie is what separates "mask chosen" from "mask applied" / "mask reported" faults.
+pub fn auto_mask_small() -> BoxedStrategy<(BuildCase, &'static str, Cell)> {
+    (prop_oneof![4 => 1usize..=3, 3 => 4usize..=9, 4 => 10usize..=12, 1 => 13usize..=14], 0usize..4, 0usize..3, any_force())
+        .prop_flat_map(|(v, li, mi, force)| {
+            let cell = Cell { version: v, level: Level::from_index(li), mode: Mode::from_index(mi) };
+            case_in_cell(cell, force, None).prop_map(move |(c, f)| (c, f, cell))
+        })
+        .boxed()
+}
+
+/// Short payloads inside a forced (larger than necessary) version: padding blocks, block-boundary endings
+pub fn padded_forced() -> BoxedStrategy<(BuildCase, &'static str, Cell)> {
+    (any_cell(), any_mask(), any::<bool>(), any::<bool>())
+        .prop_flat_map(|(cell, mask, fm, fl)| case_in_cell(cell, Force { mode: fm, level: fl, version: true }, mask).prop_map(move |(c, f)| (c, f, cell)))
+        .boxed()
 }
